@@ -33,4 +33,11 @@ theorem text_pins_glue :
     Gen.match_derive_body = "if zero is None: zero = self.zero ; if a is None: a = self.a ; if b is None: b = self.b ; if indices is None: indices = self.indices ; if selector is None: selector = self.selector ; return Match(correlation_result=self.correlation_result, selector=selector, zero=zero, a=a, b=b, indices=indices)" ∧
     Gen.match_from_selection_body = "if selector is None: selector = point_selection.selector ; return Match(correlation_result=point_selection.correlation_result, selector=selector, zero=zero, a=a, b=b, indices=indices)" := ⟨rfl, rfl, rfl, rfl, rfl, rfl, rfl⟩
 
+/-- the fit `fastmatch` runs on the matched peaks and the error it reports (modelled in `Model.Lattice`, proved in C06) -/
+theorem text_pins_fit :
+    Gen.wopt_body = "indices = np.hstack([np.ones((len(self.indices), 1)), self.indices]) ; W = np.vstack([self.peak_elevations, self.peak_elevations]) ; Aw = indices * np.sqrt(self.peak_elevations[:, np.newaxis]) ; Bw = self.refineds * np.sqrt(W.T) ; x, residuals, rank, s = np.linalg.lstsq(Aw, Bw, rcond=None) ; if x.size == 0: raise np.linalg.LinAlgError('Optimizing returned empty result') ; zero, a, b = x ; return self.derive(zero=zero, a=a, b=b)"
+    ∧ Gen.error_body = "if len(self) > 0: diff = np.linalg.norm(self.refineds - self.calculated_refineds, axis=1) return (diff * self.peak_elevations).mean() / self.peak_elevations.mean() else: return np.inf" := by
+  refine ⟨rfl, rfl⟩
+
+
 end C05
